@@ -1352,6 +1352,16 @@ class Exec:
             if isinstance(t, TupleTy):
                 yield v_index(v, k), st
                 return
+            if isinstance(t, AbstractTy) and isinstance(k, str) and self.specs is not None \
+                    and self.specs.iface_ret(t.base, f".[{k}]") is not None:
+                # record-like dict of an abstract object (Report.report): a typed field per literal key declared in
+                # the sidecar (R.attr(base, "[key]", ty)); a missing key raises KeyError unless `has` is entailed
+                has = self.uf_apply(f"{t.base}.has[{k}]", [v], BoolT)
+                st_ok, raises = self.guard(st, has, "KeyError", where)
+                yield from raises
+                if st_ok is not None:
+                    yield self.uf_apply(f"{t.base}[{k}]", [v], self.specs.iface_ret(t.base, f".[{k}]")), st_ok
+                return
         raise PyvcUnsupported(f"subscript on {v!r}")
 
     def pydict_lookup(self, d, k, st):
@@ -1540,6 +1550,10 @@ class Exec:
                 if attr in self.repo.classes[n].class_consts:
                     yield from self.expr(self.repo.classes[n].class_consts[attr], {"__module__": self.repo.classes[n].path}, st)
                     return
+            # sidecar-declared attribute type wins over the annotation
+            if self.specs is not None and self.specs.iface_ret(base, "." + attr) is not None:
+                yield self.uf_apply(f"{base}.{attr}", [r], self.specs.iface_ret(base, "." + attr)), st
+                return
             # annotated attribute on the interface class
             for n in self.repo.mro(base):
                 for fn_, ann, _ in self.repo.classes[n].own_fields:
